@@ -95,6 +95,7 @@ type Obligation struct {
 	Raw       string
 	replay    *replayInfo
 	exceptObl *Obligation
+	clause    *Clause
 	ModelWeak bool // model found after dropping background axioms (candidate only)
 }
 
